@@ -339,7 +339,7 @@ Proof.
   rewrite val_bits_testbit. cbn [seq map].
   replace (Z.of_N a + 256 * Z.of_N b) with (Z.of_N (a + 256 * (b + 256 * 0))) by lia.
   repeat (f_equal; [rewrite LW.Mac.DecProofs.land_pow2_testbit, <- N2Z.inj_testbit; reflexivity|]).
-  reflexivity.
+  f_equal. rewrite LW.Mac.DecProofs.land_pow2_testbit, <- N2Z.inj_testbit. reflexivity.
 Qed.
 
 Lemma all_false_existsb m : all_false m = negb (existsb (fun x => x) m).
